@@ -109,12 +109,12 @@ def run(ctx, rep):
                       ('D3.degenerate', 'a constant fit replaces exactly cdf/ppf/pdf/sample by the point-mass versions; the point-mass CDF is the right-continuous unit step; _is_constant / _extract_constant agree with _fit_constant'),
                       ('D4.quantile', 'KDE percent_point: root function cdf(x) - U[valid], brackets sized by the same mask, result scattered by the same mask, 0/1 map to -inf/+inf')):
         rep.rule(rid, text)
-    d1(ctx, rep)
-    d2(ctx, rep)
-    d3(ctx, rep)
-    d4(ctx, rep)
-    d5_lanes(ctx, rep)
-    d6_blocks(ctx, rep)
+    rep.guarded('D1.d1', d1, ctx, rep)
+    rep.guarded('D2.d2', d2, ctx, rep)
+    rep.guarded('D3.d3', d3, ctx, rep)
+    rep.guarded('D4.d4', d4, ctx, rep)
+    rep.guarded('D5.d5_lanes', d5_lanes, ctx, rep)
+    rep.guarded('D6.d6_blocks', d6_blocks, ctx, rep)
 
 
 def d1(ctx, rep):
@@ -244,7 +244,7 @@ def d2(ctx, rep):
         mc = c.lookup_attr('MODEL_CLASS')
         dotted = prog.resolve(mc[0].module, mc[1]) if mc else None
         want = K.SCIPY_DIST_PARAMS.get(dotted)
-        fit, fitc = c.lookup('_fit'), c.lookup('_fit_constant')
+        fit, fitc = c.need('_fit'), c.need('_fit_constant')
         from ..dictkeys import Env, const_tuple, evaluate, stored_params
         if want is None:
             # KDE: both branches must fill the same keys
@@ -320,7 +320,13 @@ def d3(ctx, rep):
     rep.check('D3.degenerate', rc, rc.node.name, set(pairs) == want, f'replaces exactly {sorted(want)}',
               f'replaces {sorted(pairs)}: {sorted(want - set(pairs))} keep answering from stale/invalid parameters', construct='replaced methods')
     for k, (v, s) in pairs.items():
-        rep.check('D3.degenerate', rc, s, v == '_constant_' + k, f'{k} -> _constant_{k}', f'{k} is replaced by {v}: a method of a different kind')
+        others = {'_constant_' + o for o in want if o != k}
+        if v == '_constant_' + k:
+            rep.ok('D3.degenerate', rc, s, f'{k} -> _constant_{k}')
+        elif v in others:
+            rep.bad('D3.degenerate', rc, s, f'{k} is replaced by {v}: a method of a different kind')
+        else:
+            rep.undecided('D3.degenerate', rc, s, f'{k} is replaced by {v}: which kind of method that is cannot be told from its name')
     # the undo removes exactly the same four
     un = uni.methods.get('_unset_constant_value')
     if un is not None:
@@ -366,12 +372,12 @@ def d3(ctx, rep):
     for c in base.subclasses():
         if c.is_abstract():
             continue
-        fc, isc, exc = c.lookup('_fit_constant'), c.lookup('_is_constant'), c.lookup('_extract_constant')
+        fc, isc, exc = c.need('_fit_constant'), c.need('_is_constant'), c.need('_extract_constant')
         from ..dictkeys import Env, deref, stored_params
         ds = stored_params(ctx, fc, c)
         dk = ds[0][1] if ds else None
         if not ds and any(isinstance(x, ast.Call) and is_self_attr(x.func, fc.self_name, '_fit') for x in walk_no_nested(fc.node)):
-            fds = stored_params(ctx, c.lookup('_fit'), c)
+            fds = stored_params(ctx, c.need('_fit'), c)
             dk = fds[0][1] if fds else None
             if dk is not None and dk.keys is not None:
                 dk = type(dk)(dk.keys, dk.order, None, {})  # values come from the optimiser: not constants
